@@ -669,6 +669,11 @@ func nonNegative(v ssa.Value, at ssa.Instruction, depth int) (bool, string) {
 		if fn.Name() == "drawCell" && (x.Name() == "x" || x.Name() == "y") {
 			return drawCellArgsNonNeg(fn, x)
 		}
+		// any other unexported helper that is only ever called directly (never stored or passed on):
+		// the parameter is what its callers pass (`drawRow(y)` called with the row index)
+		if fn.Parent() == nil && fn.Object() != nil && !fn.Object().Exported() && nnProg != nil && onlyCalledStatically(nnProg, fn) {
+			return drawCellArgsNonNeg(fn, x)
+		}
 	case *ssa.UnOp:
 		if ref, _, ok := loadedField(x); ok {
 			g := guardsAt(at.Block())
@@ -740,7 +745,7 @@ func drawCellArgsNonNeg(fn *ssa.Function, prm *ssa.Parameter) (bool, string) {
 			a := derefCell(cc.Args[idx])
 			if okA, _ := nonNegative(a, in, 1); !okA {
 				// the corner trick's x-1 (named exception at its own TGoto site)
-				if bo, isBO := a.(*ssa.BinOp); isBO && bo.Op == token.SUB {
+				if bo, isBO := a.(*ssa.BinOp); isBO && bo.Op == token.SUB && fn.Name() == "drawCell" {
 					return
 				}
 				ok = false
@@ -1049,4 +1054,27 @@ func referrersOrNil(a *ssa.Alloc) []ssa.Instruction {
 		return nil
 	}
 	return referrers(a)
+}
+
+// onlyCalledStatically: every mention of fn in the module is the callee position of a plain call.
+func onlyCalledStatically(p *Prog, fn *ssa.Function) bool {
+	ok := true
+	for _, g := range p.modFns {
+		if g.Pkg != fn.Pkg {
+			continue
+		}
+		for _, f := range withClosures(g) {
+			eachInstr(f, func(in ssa.Instruction) {
+				for _, op := range in.Operands(nil) {
+					if *op == ssa.Value(fn) {
+						cc := callCommon(in)
+						if _, isCall := in.(*ssa.Call); !isCall || cc == nil || cc.StaticCallee() != fn {
+							ok = false
+						}
+					}
+				}
+			})
+		}
+	}
+	return ok
 }
